@@ -46,4 +46,7 @@ MUTANTS = [
     N("C07", "setdefault in START", TP,
       "        if event.tid not in state:\n            # New tid\n            state[event.tid] = {}\n\n        state[event.tid][event.eventid] = []",
       "        state.setdefault(event.tid, {})[event.eventid] = []"),
+    F("C07", "bare next() in the lookup assembler", "traces_parser.py",
+      "        for event in events:\n            lookup_events.append(event)\n            if event.func_qualifier & DgbFuncQual.DBG_FUNC_START.value:",
+      "        events = iter(events)\n        for event in events:\n            if not event.func_qualifier & 3:\n                event = next(events)\n            lookup_events.append(event)\n            if event.func_qualifier & DgbFuncQual.DBG_FUNC_START.value:", "R1"),
 ]
